@@ -28,6 +28,8 @@ def run(ctx):
     SK.w4_pack_iteration(ctx)
     E.e10_memo_keyed_by_arguments(ctx)
     ctx.floor("W4", 1)
+    X.x6_fallback_contract(ctx)
+    ctx.floor("X6", 2)
     ctx.floor("E10", 7)
     ctx.floor("X1", 4)
     ctx.floor("X2", 3)
